@@ -14,6 +14,9 @@ import (
 	"github.com/attestantio/go-eth2-client/spec/phase0"
 	"github.com/attestantio/vouch/internal/vnd"
 	"github.com/attestantio/vouch/internal/vstub"
+	"github.com/attestantio/vouch/services/chaintime"
+	nullmetrics "github.com/attestantio/vouch/services/metrics/null"
+	"github.com/rs/zerolog"
 )
 
 type c18Headers struct {
@@ -21,6 +24,57 @@ type c18Headers struct {
 	fail  bool
 	slot  phase0.Slot
 	asked string
+	// the rest of the environment the constructor was given
+	blocks *c18Blocks
+	events *c18Events
+	sched  *vstub.Scheduler
+}
+
+// c18Events records the handlers the constructor subscribes.
+type c18Events struct {
+	topics   []string
+	handlers []eth2client.EventHandlerFunc
+}
+
+func (e *c18Events) Events(_ context.Context, topics []string, handler eth2client.EventHandlerFunc) error {
+	for _, t := range topics {
+		e.topics = append(e.topics, t)
+		e.handlers = append(e.handlers, handler)
+	}
+	return nil
+}
+
+// deliver hands an event to the handler subscribed for its topic.
+func (e *c18Events) deliver(event *apiv1.Event) {
+	delivered := 0
+	for i, t := range e.topics {
+		if t == event.Topic {
+			delivered++
+			e.handlers[i](event)
+		}
+	}
+	vnd.Assert(delivered == 1, "C18.new.one-handler-per-topic")
+}
+
+// c18New builds the service through its constructor: at that moment the head
+// block cannot be fetched (the chain is not ready), so that the service starts
+// without an execution head as a directly built one did; the constructor
+// subscribes to block and head events and registers the periodic cleaning job.
+func c18New(ct chaintime.Service, h *c18Headers) *Service {
+	h.blocks = &c18Blocks{fail: true}
+	h.events = &c18Events{}
+	h.sched = &vstub.Scheduler{}
+	s, err := New(context.Background(), WithLogLevel(zerolog.Disabled), WithMonitor(&nullmetrics.Service{}),
+		WithChainTime(ct), WithSignedBeaconBlockProvider(h.blocks), WithBeaconBlockHeadersProvider(h),
+		WithEventsProvider(h.events), WithScheduler(h.sched))
+	vnd.Assert(err == nil && s != nil, "C18.new.accepted")
+	return s
+}
+
+// clean fires the periodic cleaning job the constructor registered.
+func (h *c18Headers) clean() {
+	vnd.Assert(len(h.sched.Periodic) == 1, "C18.new.one-periodic-cleaning-job")
+	h.sched.Periodic[0].Fn(context.Background())
 }
 
 var _ eth2client.BeaconBlockHeadersProvider = (*c18Headers)(nil)
@@ -43,11 +97,8 @@ func (h *c18Headers) BeaconBlockHeader(_ context.Context, opts *api.BeaconBlockH
 // distinct roots.
 func c18Cache(n int) (*Service, []phase0.Root, []phase0.Slot, *c18Headers) {
 	h := &c18Headers{fail: vnd.Bool("fetch.fail"), slot: phase0.Slot(vnd.U64("fetch.slot"))}
-	s := &Service{
-		chainTime:                  vstub.NewChainTime(64),
-		beaconBlockHeadersProvider: h,
-		blockRootToSlot:            map[phase0.Root]phase0.Slot{},
-	}
+	s := c18New(vstub.NewChainTime(64), h)
+	// an arbitrary pre-state of the cache
 	roots := make([]phase0.Root, n)
 	slots := make([]phase0.Slot, n)
 	for i := 0; i < n; i++ {
@@ -104,10 +155,10 @@ func VerifC18_Lookup() {
 // VerifC18_Clean: one cleaning run from an arbitrary cache state.
 func VerifC18_Clean() {
 	n := vnd.IntRange("n", 0, 3)
-	s, roots, slots, _ := c18Cache(n)
+	s, roots, slots, h := c18Cache(n)
 	ct := s.chainTime.(*vstub.ChainTime)
 	curEpoch := uint64(ct.Cur) / ct.SPE
-	s.cleanBlockRootToSlot(context.Background())
+	h.clean()
 	for i := range roots {
 		st, ok := s.blockRootToSlot[roots[i]]
 		if curEpoch <= 64 {
@@ -154,13 +205,13 @@ func VerifC18_BlockEvent() {
 	n := vnd.IntRange("n", 0, 2)
 	s, roots, slots, h := c18Cache(n)
 	if vnd.Bool("event.without-data") {
-		s.handleBlock(&apiv1.Event{Topic: "block"})
+		h.events.deliver(&apiv1.Event{Topic: "block"})
 		vnd.Assert(len(s.blockRootToSlot) == n, "C18.event.no-data-no-change")
 		return
 	}
 	r := phase0.Root(vnd.Root("event.root"))
 	sl := phase0.Slot(vnd.U64("event.slot"))
-	s.handleBlock(&apiv1.Event{Topic: "block", Data: &apiv1.BlockEvent{Slot: sl, Block: r}})
+	h.events.deliver(&apiv1.Event{Topic: "block", Data: &apiv1.BlockEvent{Slot: sl, Block: r}})
 	got, err := s.BlockRootToSlot(context.Background(), r)
 	vnd.Assert(err == nil && got == sl, "C18.event.then-lookup-returns-the-events-slot")
 	vnd.Assert(h.calls == 0, "C18.event.no-fetch")
@@ -194,11 +245,12 @@ func VerifC18_HeadEvent() {
 	s, roots, slots, h := c18Cache(n)
 	headSlot := phase0.Slot(vnd.U64("head.slot"))
 	parent := phase0.Root(vnd.Root("head.parent"))
-	blocks := &c18Blocks{fail: vnd.Bool("block-fetch.fail"), block: &spec.VersionedSignedBeaconBlock{Version: spec.DataVersionCapella,
+	// from now on the node answers block requests (or fails again)
+	h.blocks.fail = vnd.Bool("block-fetch.fail")
+	h.blocks.block = &spec.VersionedSignedBeaconBlock{Version: spec.DataVersionCapella,
 		Capella: &capella.SignedBeaconBlock{Message: &capella.BeaconBlock{Slot: headSlot, ParentRoot: parent,
-			Body: &capella.BeaconBlockBody{ExecutionPayload: &capella.ExecutionPayload{BlockNumber: vnd.U64("el.height"), StateRoot: [32]byte{1}}}}}}}
-	s.signedBeaconBlockProvider = blocks
-	s.handleHead(&apiv1.Event{Topic: "head", Data: &apiv1.HeadEvent{Slot: headSlot, Block: phase0.Root(vnd.Root("head.root"))}})
+			Body: &capella.BeaconBlockBody{ExecutionPayload: &capella.ExecutionPayload{BlockNumber: vnd.U64("el.height"), StateRoot: [32]byte{1}}}}}}
+	h.events.deliver(&apiv1.Event{Topic: "head", Data: &apiv1.HeadEvent{Slot: headSlot, Block: phase0.Root(vnd.Root("head.root"))}})
 	for i := range roots {
 		st, ok := s.blockRootToSlot[roots[i]]
 		vnd.Assert(ok && st == slots[i], "C18.head.entries-untouched")
